@@ -30,6 +30,7 @@ def oracleFor (prop : String) (o : Opts) (env : Env) (inN outN : Node) (diags : 
   else if prop == "C07" then oracleC07 outN diags
   else if prop == "C06" then oracleC06 o inN outN
   else if prop == "C11" then oracleC11 o env inN outN
+  else if ["C16", "C17", "C18", "C19"].contains prop then oracleTypes prop o inN outN diags
   else .skip "no-oracle"
 
 /-- unit lines: `(unit 'fn 'arg 'implResult)` -/
